@@ -94,7 +94,17 @@ Fixpoint skip_while (fuel : nat) (p : Z -> bool) (c : Z) : M Z :=
   | S f => if p c then tdo c2 <- t_read; skip_while f p c2 else ret c
   end.
 Definition skip_symbol : M Z := tdo c <- t_read; with_fuel (fun f => skip_while f is_identifier_part c).
-Definition skip_symbol_operator : M Z := tdo c <- t_read; with_fuel (fun f => skip_while f is_operator_char c).
+(* skipSymbolOperator: a comment ends the operator *)
+Fixpoint skip_operator_loop (fuel : nat) (c : Z) : M Z :=
+  match fuel with
+  | O => nofuel
+  | S f =>
+    if is_operator_char c then
+      tdo stop <- (if c =? c_slash then tdo c2 <- t_peek; ret ((c2 =? c_slash) || (c2 =? c_star)) else ret false);
+      if stop then ret c else tdo c2 <- t_read; skip_operator_loop f c2
+    else ret c
+  end.
+Definition skip_symbol_operator : M Z := tdo c <- t_read; with_fuel (fun f => skip_operator_loop f c).
 
 (* skipSymbolQuotedHelper / skipStringHelper: the same loop with a different closing quote *)
 Fixpoint skip_quoted_helper (fuel : nat) (q : Z) : M unit :=
